@@ -244,6 +244,10 @@ def _ground_vals(npar):
 
 
 GROUND_ANGLE_SETS = [[4.0, 8.0, -7.0], [13.5, -0.125, 6.5], [-9.25, 2.5, 7.1], [7, -13, 2], [0.0, 6.283185307179586, 12.566370614359172]]
+# values that look alike to a dictionary (hash(-1) == hash(-2) in CPython for ints, floats and sympy Integers; 0 == 0.0 == -0.0)
+# evaluated one after the other in ONE process, and every kind of zero (all-zero parameters are where "this is the identity"
+# short cuts live: GPi2(0) and MS(0,0) are neither the identity nor self-adjoint)
+GROUND_ANGLE_SETS += [[-1, -1, -2], [-2, -2, -1], [-1.0, -2.0, -1.0], [-2.0, -1.0, -2.0], [0, 0, 0], [0.0, 0.0, 0.0], [-0.0, 0.0, -0.0]]
 
 
 def _ground_numeric_path(name):
@@ -268,6 +272,13 @@ def _ground_numeric_path(name):
             bad.append(("numeric-vs-symbolic", pv, float(np.abs(M - W).max())))
         if np.abs(M.conj().T @ M - np.eye(M.shape[0])).max() > 1e-9:
             bad.append(("unitary-numeric", pv, 0.0))
+        # what the gate hands out as its adjoint (a gate treated as self-adjoint hands out itself) really is the adjoint
+        g = obj(*pv)
+        D = np.array(g.dagger.matrix.evalf(), dtype=complex)
+        if D.shape != M.shape or np.abs(D - M.conj().T).max() > 1e-9:
+            bad.append(("dagger-numeric", pv, 0.0))
+        if g.is_hermitian and np.abs(M - M.conj().T).max() > 1e-9:
+            bad.append(("selfadjoint-numeric", pv, 0.0))
         if name in GROUP_GATES:
             a, b = vs[0], vs[1]
             Ma, Mb, Mab = (np.array(obj(x).matrix.evalf(), dtype=complex) for x in (a, b, a + b))
@@ -411,7 +422,7 @@ def replay(data):
     if clause == "computable":
         ok, detail = _ground_computable(name)
         return (not ok), detail
-    if clause in ("numeric-vs-symbolic", "unitary-numeric", "group-law-numeric"):
+    if clause in ("numeric-vs-symbolic", "unitary-numeric", "group-law-numeric", "dagger-numeric", "selfadjoint-numeric"):
         bad = [b for b in _ground_numeric_path(name) if b[0] == clause]
         return bool(bad), str(bad[:2])
     if clause in ("group-law",):
